@@ -161,6 +161,8 @@ def fresh_objects(case):
     o = Orbit(cart, mkdate(0), "cartesian", "EME2000", prop)
     if kind == "keplernum" and init.get("mans"):
         o.maneuvers = make_mans(init)
+    if init.get("form", "cartesian") != "cartesian":
+        o.form = init["form"]  # the initial orbit is given in another element form
     return o
 
 
@@ -279,8 +281,30 @@ class Machine:
         if abs(us_of(res.date) - t) > 1:
             raise Violation("propagate-date", f"propagate to t={t / 1e6}s returned a state dated t={us_of(res.date) / 1e6}s")
         self.same_state(res, t, "propagate")
-        res.base[:] = 0.0
-        return ["propagate"]
+        tags = ["propagate"]
+        # what is returned belongs to the caller, who may do anything to it: the next request for the
+        # very same date must not see it
+        self.scribble(res, op.get("scribble", 0))
+        if op.get("again"):
+            if op.get("as_td") and op.get("again") == 2 and self.kind not in ("ephem", "none"):
+                res2 = self.obj.propagate(timedelta(microseconds=t))
+            else:
+                res2 = self.obj.propagate(mkdate(t))
+            if res2 is res:
+                raise Violation("result-aliased", f"propagate to t={t / 1e6}s twice returned the very same object")
+            self.same_state(res2, t, "propagate again to the same date, after the first result was changed in place")
+            self.scribble(res2, 0)
+            tags.append("propagate-again")
+        return tags
+
+    def scribble(self, sv, mode):
+        if mode == 1 and self.kind in ("kepler", "j2", "sgp4", "keplernum", "ephem"):
+            sv.form = "keplerian"
+            sv.base[0] *= 1.1
+        elif mode == 2:
+            sv.base[3:] += 10.0
+        else:
+            sv.base[:] = 0.0
 
     def _range(self, op):
         start = self.clamp(op["start_us"])
@@ -564,6 +588,10 @@ def op_strategy(draw, kind, h_us, span_us):
                                  "ephem", "iter_listeners", "rebind", "rebind_other", "partial", "iter_own", "kick", "user_change"]))
 
     def t():
+        # one in four on the grid of the integration / tabulation step (ephemeris nodes, integration points)
+        if draw(st.integers(0, 3)) == 0:
+            k = draw(st.integers(0 if kind == "ephem" else -(span_us // h_us), span_us // h_us))
+            return k * h_us
         return draw(go.uniform_int(-span_us, span_us)) if kind != "ephem" else draw(go.uniform_int(0, span_us))
 
     if name == "user_change":
@@ -574,7 +602,11 @@ def op_strategy(draw, kind, h_us, span_us):
     if name == "kick":
         return dict(op=name, t_us=t(), t2_us=t(), variant=draw(st.sampled_from(["A", "B", "C"])),
                     dv=[round(draw(go.uniform(-50, 50)), 3) for _ in range(3)])
-    if name in ("propagate", "rebind", "rebind_other"):
+    if name == "propagate":
+        # one in two asked twice in a row for the same date; the result is changed in place in between
+        return dict(op=name, t_us=t(), as_td=draw(st.booleans()), scribble=draw(st.integers(0, 2)),
+                    again=draw(st.sampled_from([0, 0, 1, 2])))
+    if name in ("rebind", "rebind_other"):
         return dict(op=name, t_us=t(), as_td=draw(st.booleans()))
     if name == "iter_dates":
         n = draw(st.integers(1, 6))
@@ -621,6 +653,8 @@ def history(draw, kind):
         el = draw(go.elements(elliptic=True, hyperbolic=False, emax_ell=0.6, rp_range=(1.05, 7.0), mwind=0.5))
         init = dict(el=el)
         h = 60
+        if kind in ("kepler", "j2", "keplernum", "none"):
+            init["form"] = draw(st.sampled_from(["cartesian", "cartesian", "keplerian", "keplerian_mean", "equinoctial", "spherical"]))
         if kind == "keplernum":
             h = draw(st.sampled_from([30, 60, 90]))
             init["h"] = h
@@ -664,7 +698,7 @@ def check(case):
     m = Machine(case)
     tags = m.run()
     kinds = {t for t in tags if t in ("propagate", "iter_range", "iter_dates", "iter_daterange", "ephem", "iter_listeners", "iter_own",
-                                       "rebind", "rebind_other", "partial_consume", "kick:A", "kick:B", "kick:C", "user_change:form", "user_change:frame")}
+                                       "rebind", "rebind_other", "partial_consume", "kick:A", "kick:B", "kick:C", "user_change:form", "user_change:frame", "propagate-again")}
     # an op that failed as a listed known finding and after which the history went on also counts:
     # what follows it runs on objects that have been through a failing call
     special = {"backward", "step-not-dividing", "shorter-than-interp-order", "stop-off-grid", "known-finding-op"} & set(tags)
